@@ -5,7 +5,8 @@ usage: tools/seedeval.py <name> <patch> <demo.py> <PROP> [--checks C01,C02,...] 
 
 1. confirm, in a scratch worktree of /repo HEAD (outside /repo and /verif): the demo passes without the patch, fails with it,
    and the repository's suite gives the baseline summary with it;
-2. apply the patch to /repo, run the named checks, undo it (git checkout -- .);
+2. apply the patch to a scratch copy of /repo's working tree and run the named checks against it (WCVERIF_REPO / WCVERIF_OUT):
+   /repo itself and /verif/evidence are not touched;
 3. write /verif/seeded/<name>/{patch.diff, demo.py, meta.json}.
 """
 import json
@@ -73,29 +74,27 @@ def main():
         shutil.rmtree(wt, ignore_errors=True)
     if not meta.get('confirmed'):
         return finish(name, patch, demo, meta, ok=False)
-    # ---- run the checks against the change -----------------------------------------------------------
-    rc, out = sh(f'git -C {REPO} diff --quiet')
-    if rc:
-        print('/repo has uncommitted changes, refusing')
-        return 2
-    rc, out = sh(f'git -C {REPO} apply {os.path.abspath(patch)}')
+    # ---- run the checks against the change (on a scratch copy of /repo's working tree; /repo and evidence/ stay untouched) ------
+    work = tempfile.mkdtemp(prefix='seedeval-run-', dir='/tmp')
     results = {}
-    # evidence files are rewritten by every run: keep the ones of the unchanged tree
-    evbak = tempfile.mkdtemp(prefix='seedeval-ev-', dir='/tmp')
-    shutil.copytree(os.path.join(VERIF, 'evidence'), os.path.join(evbak, 'evidence'))
     try:
+        mrepo = os.path.join(work, 'repo')
+        shutil.copytree(REPO, mrepo, ignore=shutil.ignore_patterns('.git', '__pycache__', '*.pyc', 'site', 'docs', 'tests'))
+        rc, out = sh(f'git apply {os.path.abspath(patch)}', cwd=mrepo)
+        if rc:
+            meta['error'] = 'patch does not apply to the working tree of /repo: ' + out[-300:]
+            print(meta['error'])
+            return finish(name, patch, demo, meta, ok=False)
+        env = dict(os.environ, WCVERIF_REPO=mrepo, WCVERIF_OUT=os.path.join(work, 'out'))
         for c in checks:
             t0 = time.time()
-            rc, out = sh(f'./check {c} --tier {tier}', cwd=VERIF, timeout=7200)
+            rc, out = sh(f'./check {c} --tier {tier}', cwd=VERIF, env=env, timeout=7200)
             sigs = [ln.strip() for ln in out.splitlines() if ln.strip().startswith('signature:')]
             results[c] = {'exit': rc, 'violation_lines': out.count('\nVIOLATION') + (1 if out.startswith('VIOLATION') else 0),
                           'signatures': sigs[:4], 'wall_s': round(time.time() - t0, 1)}
             print(f'  {c} ({tier}): exit={rc} {sigs[:2]}')
     finally:
-        sh(f'git -C {REPO} checkout -- .')
-        shutil.rmtree(os.path.join(VERIF, 'evidence'), ignore_errors=True)
-        shutil.copytree(os.path.join(evbak, 'evidence'), os.path.join(VERIF, 'evidence'))
-        shutil.rmtree(evbak, ignore_errors=True)
+        shutil.rmtree(work, ignore_errors=True)
     meta['checks_run'] = {'tier': tier, 'results': results}
     meta['caught_by'] = sorted(c for c, r in results.items() if r['exit'] == 1)
     return finish(name, patch, demo, meta, ok=True)
